@@ -50,6 +50,10 @@ def gen(tape: Tape, tier: str) -> dict:
     r = tape.draw("gen.kind", 10)
     if r < 2:
         case = gen_scan_case(tape, max_blocks=8)
+    elif r == 2:
+        from ..redcase import gen_multi_by_case
+
+        case = gen_multi_by_case(tape)  # two groupers, lazily factorised when the labels are dask arrays
     else:
         case = gen_reduce_case(
             tape,
